@@ -1019,6 +1019,7 @@ def _size_arg_ok(e, line):
 def d4_chunk(ctx):
     repo, ck = ctx.repo, ctx.check
     # ------------------------------------------------------------ read_chunk_header
+    hdr_idx = [0]
     f = repo.func(CHUNKED + ':ChunkedTransferReader.read_chunk_header')
     cfg = ctx.cfg(f)
     rls = call_nodes(cfg, 'readline', recv='self._connection')
@@ -1083,7 +1084,10 @@ def d4_chunk(ctx):
             oks = len(st) == 1 and isinstance(st[0], ast.Assign) and norm_text(st[0].value) == size
             ck.expect(oks, 'C08-D4', f.qual, 'self._bytes_left = %s' % size, 'the per-chunk counter is not initialised from the parsed size', f.loc(st[0]) if st else f.loc())
             rets = [r for r in walk_no_nested(f.node) if isinstance(r, ast.Return)]
-            okr = len(rets) == 1 and isinstance(rets[0].value, ast.Tuple) and [norm_text(e) for e in rets[0].value.elts] == [size, line]
+            got = [norm_text(e) for e in rets[0].value.elts] if len(rets) == 1 and isinstance(rets[0].value, ast.Tuple) else []
+            okr = sorted(got) == sorted([size, line]) and len(got) == 2
+            if okr:
+                hdr_idx[0] = got.index(size)
             ck.expect(okr, 'C08-D4', f.qual, 'return (%s, %s)' % (size, line), 'read_chunk_header no longer returns (parsed size, raw line)', f.loc())
     # ------------------------------------------------------------ read_chunk_body
     g = repo.func(CHUNKED + ':ChunkedTransferReader.read_chunk_body')
@@ -1185,7 +1189,7 @@ def d4_chunk(ctx):
                'expected one call site each, found %d/%d/%d: a chunked message cannot be read to its end' % (len(H), len(B), len(T)), s.loc())
         return
     H, B, T = H[0], B[0], T[0]
-    size, content = assigned_name(H, 0), assigned_name(B, 0)
+    size, content = assigned_name(H, hdr_idx[0]), assigned_name(B, 0)
     if size is None or content is None:
         ck.bad('C08-D4', s.qual, '(size, raw) = read_chunk_header(); (content, raw) = read_chunk_body()',
                'the results of the chunk reader are not unpacked into (size/content, raw)', s.loc())
